@@ -5,6 +5,7 @@ import (
 	"math/rand"
 	"net/http"
 	"strings"
+	"time"
 
 	"github.com/flamego/flamego"
 )
@@ -14,10 +15,17 @@ type spyWriter struct {
 	hdr    http.Header
 	events *[]*Sx
 	acc    int // how many bytes the next Write accepts
+	block  func()
 }
 
 func (s *spyWriter) Header() http.Header { return s.hdr }
-func (s *spyWriter) WriteHeader(c int)   { *s.events = append(*s.events, T("uwh", I(c))) }
+func (s *spyWriter) WriteHeader(c int) {
+	*s.events = append(*s.events, T("uwh", I(c)))
+	if b := s.block; b != nil { // the status line is on its way: a second caller may arrive meanwhile
+		s.block = nil
+		b()
+	}
+}
 func (s *spyWriter) Write(b []byte) (int, error) {
 	n := len(b)
 	var err error
@@ -101,7 +109,11 @@ func genC13(rng *rand.Rand, n int, tier string, emit func(*Sx)) {
 				if rng.Intn(3) == 0 {
 					c = 100 + rng.Intn(900)
 				}
-				ops = append(ops, T("wh", I(c)))
+				if rng.Intn(6) == 0 {
+					ops = append(ops, T("cwh", I(c), I(codes[rng.Intn(len(codes))]))) // two callers at once
+				} else {
+					ops = append(ops, T("wh", I(c)))
+				}
 			case r < 65:
 				ops = append(ops, T("fl"))
 			case r < 78:
@@ -129,6 +141,54 @@ func runC13(in *Sx) *Sx {
 	for _, op := range in.Field("ops").Args() {
 		events = nil
 		a := op.Args()
+		if op.Tag() == "cwh" {
+			// (cwh c1 c2): WriteHeader(c2) arrives while WriteHeader(c1) is inside the underlying writer; the answers
+			// are those of the two calls one after the other
+			entered, release, doneA := make(chan struct{}), make(chan struct{}), make(chan struct{})
+			spy.block = func() { close(entered); <-release }
+			call := func(c int) {
+				defer func() {
+					if r := recover(); r != nil {
+						if r != hookPanic {
+							panic(r)
+						}
+						events = append(events, T("pan"))
+					}
+				}()
+				w.WriteHeader(c)
+			}
+			go func() { defer close(doneA); call(a[0].Int()) }()
+			select {
+			case <-entered:
+			case <-doneA:
+			case <-time.After(5 * time.Second):
+			}
+			spy.block = nil // consumed if the first caller is inside the underlying writer now; otherwise nobody waits
+			outs = append(outs, L(events...))
+			events = nil
+			doneB := make(chan struct{})
+			go func() { defer close(doneB); call(a[1].Int()) }()
+			select {
+			case <-doneB:
+			case <-time.After(200 * time.Millisecond):
+				// the second caller waits for the first (a lock around the writer would do that): fine, let the first
+				// one finish - the answers are still those of the two calls one after the other
+			}
+			select {
+			case <-entered:
+				close(release)
+			default:
+			}
+			for _, d := range []chan struct{}{doneA, doneB} {
+				select {
+				case <-d:
+				case <-time.After(5 * time.Second):
+				}
+			}
+			second := L(events...)
+			outs = append(outs, second)
+			continue
+		}
 		func() {
 			defer func() {
 				if r := recover(); r != nil {
